@@ -445,7 +445,9 @@ def tap_plan(tier):
         for scen in ("uc7", "uc7_tap003"):
             P.append(("tap-%s-det" % scen, scen, dict(variance=0, probability=1), 80, 1))
             P.append(("tap-%s-second-pass" % scen, scen, dict(variance=0, probability=1, repeat_kill_chain=True, frequency=2), 60, 1))
-            P.append(("tap-%s-var" % scen, scen, dict(variance=1, probability=0.5, repeat_kill_chain_stages=True), 60, 2))
+            P.append(("tap-%s-var" % scen, scen, dict(variance=1, probability=0.5, repeat_kill_chain_stages=True), 60, 1))
+            # two deviations (blue action and/or alternative RNG answers) inside the first 14 steps
+            P.append(("tap-%s-var-k2" % scen, scen, dict(variance=1, probability=0.5, repeat_kill_chain_stages=True), 14, 2))
             P.append(("tap-%s-norepeat" % scen, scen, dict(variance=1, probability=0.5, repeat_kill_chain_stages=False, repeat_kill_chain=True), 60, 1))
     else:
         P.append(("tap-uc7-var", "uc7", dict(variance=1, probability=0.5), 28, 1))
